@@ -60,6 +60,9 @@ func vpH_C20_mux() {
 	vpStub("(net/http.Header).Add", func(h http.Header, key, value string) {
 		w.events = append(w.events, "header "+key+"="+value)
 	})
+	vpStub("(net/http.Header).Set", func(h http.Header, key, value string) {
+		w.events = append(w.events, "header "+key+"="+value)
+	})
 	vpStub("(*github.com/high-moctane/mocrelay.Relay).ServeHTTP", func(r *Relay, rw http.ResponseWriter, req *http.Request) { relayCalls++ })
 	var marshalled []any
 	vpStub("encoding/json.Marshal", func(v any) ([]byte, error) {
@@ -87,22 +90,39 @@ func vpH_C20_mux() {
 		vpAssert(relayCalls == 0 && def.calls == 0, "C20.nip11-not-routed-elsewhere")
 		if hasDoc {
 			vpAssert(len(marshalled) == 1 && marshalled[0] == any(doc), "C20.nip11-document-is-the-configuration")
-			want := []string{"header Content-Type=application/nostr+json", "header Access-Control-Allow-Origin=*", "write DOC"}
-			vpAssert(len(w.events) == len(want), "C20.nip11-response-shape")
-			for i := range want {
-				if i < len(w.events) {
-					vpAssert(w.events[i] == want[i], "C20.nip11-headers-then-body")
+			// both headers are set before the body is written, the body is the encoded document,
+			// written once; further headers are the implementation's business
+			ct, acao, body := -1, -1, -1
+			nbody := 0
+			for i, ev := range w.events {
+				switch {
+				case ev == "header Content-Type=application/nostr+json":
+					ct = i
+				case ev == "header Access-Control-Allow-Origin=*":
+					acao = i
+				case len(ev) >= 6 && ev[:6] == "write ":
+					nbody++
+					if body < 0 {
+						body = i
+					}
 				}
 			}
-		} else {
-			vpAssert(len(w.events) == 1 && w.events[0] == "write {}", "C20.nip11-absent-empty-document")
+			vpAssert(nbody == 1 && body >= 0 && w.events[body] == "write DOC", "C20.nip11-response-shape")
+			vpAssert(ct >= 0 && acao >= 0 && ct < body && acao < body, "C20.nip11-headers-then-body")
 		}
+		// no document configured: what is answered is not stated (only that it is not routed elsewhere)
 	} else {
 		vpAssert(relayCalls == 0 && len(marshalled) == 0, "C20.other-requests-not-routed-to-relay-or-nip11")
 		if hasDef {
 			vpAssert(def.calls == 1 && len(w.events) == 0, "C20.other-requests-go-to-the-default-handler")
 		} else {
-			vpAssert(def.calls == 0 && len(w.events) == 1, "C20.greeting")
+			nw := 0
+			for _, ev := range w.events {
+				if len(ev) >= 6 && ev[:6] == "write " {
+					nw++
+				}
+			}
+			vpAssert(def.calls == 0 && nw >= 1, "C20.greeting")
 		}
 	}
 	vpReach("end")
